@@ -10,12 +10,13 @@ def rnd(d):
     return (int(d.split("-m")[1]) + 1) // 2
 
 
-COMMIT = {1: "5f3ff6d", 2: "5f3ff6d", 3: "39c4358", 4: "8fa01c8", 5: "d7ec9de"}
+COMMIT = {1: "5f3ff6d", 2: "5f3ff6d", 3: "39c4358", 4: "8fa01c8", 5: "d7ec9de", 6: "e897c9d"}
 ROUND_TEXT = {
     1: "",
     2: "; second round: additionally told the one-line titles of the first-round regressions of the same property and asked for rarer triggers",
     3: "; third round: told the one-line titles of the four earlier regressions of the same property and asked for regressions made of two cooperating changes or depending on state left by earlier calls / on the order of calls",
     4: "; fourth round: told the titles of the six earlier regressions of the same property and asked for regressions on growth/capacity/boundary paths of data structures, in rarely used entry points or argument combinations, or arithmetic slips",
+    6: "; sixth round (ten properties): told the titles of the ten earlier regressions of the same property and asked for what a careful reviewer could still miss (a condition right for every value but one, a branch reachable only through two optional arguments, first versus n-th file, absolute versus relative name, read versus built object, a quantity reused after what it describes has changed)",
     5: "; fifth round: told the titles of the eight earlier regressions of the same property and asked for regressions on error / cleanup paths, in the interplay of two features, or visible only for the second or later element / object / call of a kind",
 }
 
